@@ -313,6 +313,66 @@ def history_cases(an: str, bn: str) -> list[tuple[str, str]]:
     return out
 
 
+def axis_frame(name: str, q: tuple) -> list[tuple]:
+    """local frame as the limit of the unit vectors (on the polar axis the derivative of the
+    position with respect to the azimuth vanishes, the unit vector does not)"""
+    a, b, c = q
+    if name == "cylindrical":  # (rho, phi, z)
+        return [(sp.cos(b), sp.sin(b), 0), (-sp.sin(b), sp.cos(b), 0), (0, 0, 1)]
+    # spherical (r, theta polar, phi azimuth)
+    return [(sp.sin(b) * sp.cos(c), sp.sin(b) * sp.sin(c), sp.cos(b)), (sp.cos(b) * sp.cos(c),
+        sp.cos(b) * sp.sin(c), -sp.sin(b)), (-sp.sin(c), sp.cos(c), 0)]
+
+
+def axis_cases() -> list[tuple[str, str]]:
+    """points exactly on the polar axis, given with an azimuth, in the one pair that is regular
+    there (cylindrical <-> spherical): the azimuth still orients the local frame"""
+    from symplyphysics.core.experimental.coordinate_systems import convert_point, convert_vector
+    from symplyphysics.core.experimental.points import AppliedPoint
+    sy = systems()
+    cyl, sph = sy["cylindrical"], sy["spherical"]
+    out = []
+    coeffs = (2, 3, 5)
+    for phi in (pi / 3, -2 * pi / 3):
+        for zz in (2, -1):
+            cases = [("cylindrical", cyl, (0, phi, zz), "spherical", sph, (abs(zz), 0 if zz > 0 else
+                pi, phi)), ("spherical", sph, (abs(zz), 0 if zz > 0 else pi, phi), "cylindrical", cyl,
+                (0, phi, zz))]
+            for an, A, qa, bn, B, qb in cases:
+                tag = f"axis:{an}->{bn}:{qa}"
+                try:
+                    P = AppliedPoint(qa, A)
+                    stored = tuple(P.coordinates[s_] for s_ in A.base_scalars)
+                    if not all(near(x, y) for x, y in zip(stored, qa)):
+                        out.append((tag, f"the point stores {short(stored)} for {short(qa)}"))
+                        continue
+                    Pb = convert_point(P, B)
+                    got = tuple(Pb.coordinates[s_] for s_ in B.base_scalars)
+                    if not all(near(x, y) for x, y in zip(got, qb)):
+                        out.append((tag, f"converted point {short(got)}, reference {short(qb)}"))
+                        continue
+                    back = convert_point(Pb, A)
+                    gb = tuple(back.coordinates[s_] for s_ in A.base_scalars)
+                    if not all(near(x, y) for x, y in zip(gb, qa)):
+                        out.append((tag, f"round trip gives {short(gb)} for {short(qa)}"))
+                        continue
+                    v = sum(c_ * e for c_, e in zip(coeffs, A.base_vectors(P)))
+                    vb = sp.expand(convert_vector(v, P, B))
+                    nb = B.base_vectors(Pb)
+                    comps_b = [vb.coeff(e) for e in nb]
+                    rest = sp.expand(vb - sum(c_ * e for c_, e in zip(comps_b, nb)))
+                    fa, fb = axis_frame(an, qa), axis_frame(bn, qb)
+                    cart_a = [sum(coeffs[j] * fa[j][i] for j in range(3)) for i in range(3)]
+                    cart_b = [sum(comps_b[k] * fb[k][i] for k in range(3)) for i in range(3)]
+                    ok = rest == 0 and all(near(x, y) for x, y in zip(cart_a, cart_b))
+                    out.append((tag, "" if ok else f"vector {coeffs} converted to {short(vb, 120)}: "
+                        f"Cartesian components {short([sp.N(c_, 8) for c_ in cart_b])} vs "
+                        f"{short([sp.N(c_, 8) for c_ in cart_a])}"))
+                except Exception as ex:  # pylint: disable=broad-except
+                    out.append((tag, f"raised {type(ex).__name__}: {short(ex)}"))
+    return out
+
+
 def lame_cases() -> list[tuple[str, str]]:
     sy = systems()
     out = []
@@ -337,7 +397,8 @@ def lame_cases() -> list[tuple[str, str]]:
 def _work(item: tuple) -> dict:
     kind = item[0]
     cases = (pair_cases(*item[1:]) if kind == "pair" else triple_cases(*item[1:]) if kind == "triple"
-        else history_cases(*item[1:]) if kind == "history" else lame_cases())
+        else history_cases(*item[1:]) if kind == "history" else axis_cases() if kind == "axis" else
+        lame_cases())
     res: dict[str, Any] = {"n": len(cases), "keys": [k for k, _ in cases], "outcomes": {},
         "violations": [], "samples": [cases[len(cases) // 2][0]] if cases else []}
     for k, v in cases:
@@ -355,6 +416,7 @@ def main(run: Run) -> int:
         "shared-vectors", "shared-scalars")]
     items += [("triple", a, b, c) for a, b, c in itertools.permutations(NAMES, 3)]
     items.append(("lame", ))
+    items.append(("axis", ))
     items += [("history", a, b) for a, b in itertools.product(NAMES, repeat=2)]
     for r in pmap(_work, rotate(items, run.seed)):
         n = r.pop("n")
@@ -369,7 +431,8 @@ def main(run: Run) -> int:
         "base scalars of another instance (optional constructor arguments); conversion histories of one point object (two instances of "
         "the target type, back, third type, again; point first / vector first); Lame coefficients and Jacobian at every lattice point",
         exhaustive=True,
-        assumptions=["lattice points inside each system's domain, away from the axis", "values "
+        assumptions=["lattice points inside each system's domain, away from the axis (plus points on "
+            "the axis for the cylindrical <-> spherical pair, which is regular there)", "values "
             "compared at 40 digits (1e-25)", "own position maps for (rho, phi, z) and (r, theta polar, "
             "phi azimuth)"])
 
